@@ -130,6 +130,46 @@ pub proof fn lemma_au_item_bounded()
     }
 }
 
+/// the three reads of one entry, case by case (what the loop body needs before each `?`)
+pub proof fn lemma_au_item_cases(sa: Seq<u8>)
+    ensures
+        match dec_u64(sa) {
+            None => dec_au_item(sa) is None,
+            Some((client, k1)) => {
+                let sb = sa.skip(k1 as int);
+                1 <= k1 <= sa.len() && suffix_of(sa, sb) && match dec_u32(sb) {
+                    None => dec_au_item(sa) is None,
+                    Some((clock, k2)) => {
+                        let sc = sb.skip(k2 as int);
+                        1 <= k2 <= sb.len() && suffix_of(sa, sc) && sc == sa.skip((k1 + k2) as int) && match dec_buf(sc) {
+                            None => dec_au_item(sa) is None,
+                            Some((b, k3)) => 1 <= k3 <= sc.len() && suffix_of(sa, sc.skip(k3 as int)) && sc.skip(k3 as int) == sa.skip((k1 + k2 + k3) as int)
+                                && dec_au_item(sa) == Some(((ClientID(client), (clock, from_utf8(b))), k1 + k2 + k3)),
+                        }
+                    },
+                }
+            },
+        },
+{
+    lemma_dec_u64_bounded(sa);
+    if dec_u64(sa) is Some {
+        let k1 = dec_u64(sa)->Some_0.1;
+        let sb = sa.skip(k1 as int);
+        lemma_two_skips(sa, k1, 0);
+        lemma_dec_u32_bounded(sb);
+        if dec_u32(sb) is Some {
+            let k2 = dec_u32(sb)->Some_0.1;
+            let sc = sb.skip(k2 as int);
+            lemma_two_skips(sa, k1, k2);
+            lemma_dec_buf_bounded(sc);
+            if dec_buf(sc) is Some {
+                let k3 = dec_buf(sc)->Some_0.1;
+                lemma_two_skips(sa, k1 + k2, k3);
+            }
+        }
+    }
+}
+
 pub proof fn lemma_au_view_insert(m: Map<ClientID, AwarenessUpdateEntry>, c: ClientID, e: AwarenessUpdateEntry)
     ensures
         au_view(m.insert(c, e)) == au_view(m).insert(c, au_ent(e)),
@@ -154,7 +194,7 @@ impl Decode for AwarenessUpdate {
     @ret res
     @sig
         ensures
-            res is Ok ==> res->Ok_0@.dom().finite() && 3 * res->Ok_0@.len() < old(decoder).rest().len() - final(decoder).rest().len(),
+            res is Ok ==> 3 * res->Ok_0@.len() < old(decoder).rest().len() - final(decoder).rest().len(),
             match dec_au(old(decoder).rest()) {
                 Some((m, k)) => res is Ok && res->Ok_0@ == m && k <= old(decoder).rest().len() && final(decoder).rest() == old(decoder).rest().skip(k as int),
                 None => res is Err,
@@ -193,29 +233,18 @@ impl Decode for AwarenessUpdate {
         proof {
             lemma_suffix_step(s0, s1, sa);
             lemma_suffix_trans(s0, sa);
-            lemma_dec_u64_bounded(sa);
+            lemma_suffix_trans(s1, sa);
+            lemma_au_item_cases(sa);
+            if dec_u64(sa) is Some {
+                let sb = sa.skip(dec_u64(sa)->Some_0.1 as int);
+                lemma_suffix_trans(sa, sb);
+                if dec_u32(sb) is Some {
+                    lemma_suffix_trans(sa, sb.skip(dec_u32(sb)->Some_0.1 as int));
+                }
+            }
             lemma_au_item_bounded();
             lemma_dec_list_step(au_item(), 3, s1, len as nat, items, kk, (len - items.len()) as nat);
-        }
-    @after 1 `stmt:let client_id`
-        let ghost sb = decoder.rest();
-        proof {
-            lemma_suffix_skip(sa, dec_u64(sa)->Some_0.1);
-            lemma_suffix_step(s0, sa, sb);
-            lemma_suffix_step(s1, sa, sb);
-            lemma_suffix_trans(s0, sb);
-            lemma_skip_skip_all(sa, dec_u64(sa)->Some_0.1);
-            lemma_dec_u32_bounded(sb);
-        }
-    @after 1 `stmt:let clock`
-        let ghost sc = decoder.rest();
-        proof {
-            lemma_suffix_skip(sb, dec_u32(sb)->Some_0.1);
-            lemma_suffix_step(s0, sb, sc);
-            lemma_suffix_step(s1, sb, sc);
-            lemma_suffix_trans(s0, sc);
-            lemma_skip_skip_all(sb, dec_u32(sb)->Some_0.1);
-            lemma_dec_buf_bounded(sc);
+            assert(dec_au_item(sa) == au_item()(sa));
         }
     @before 1 `stmt:call insert`
         let ghost m0 = clients@;
@@ -225,9 +254,6 @@ impl Decode for AwarenessUpdate {
             lemma_au_view_insert(m0, client_id, ent);
             lemma_map_of_push(items, client_id, (clock, json@));
             items = items.push((client_id, (clock, json@)));
-            lemma_suffix_skip(sc, dec_buf(sc)->Some_0.1);
-            lemma_suffix_step(s1, sc, decoder.rest());
-            assert(dec_au_item(sa) == au_item()(sa));
             kk = kk + dec_au_item(sa)->Some_0.1;
         }
     @before 1 `stmt:call Ok`
